@@ -333,6 +333,7 @@ def scenario(rng, reqs, kt, n_req=1, force=None, tx_dt=0, rqs=None):
             k_good = rng.randrange(1, retries + 2)
         n_att = retries + 1
         this = []
+        tail = None
         for a in range(1, n_att + 1):
             mode = rng.choice(['bytes', '128', 'whole', 'random'])
             if k_good is not None and a == k_good:
@@ -356,6 +357,22 @@ def scenario(rng, reqs, kt, n_req=1, force=None, tx_dt=0, rqs=None):
             fault = rng.choice(FAULTS)
             if rq.op == 'mga' and rng.random() < 0.4:
                 fault = 'rejected_mga'
+            if tail is not None:
+                # the rest of the answer whose first part arrived in the previous attempt: completes nothing now
+                this.append((True, [(tail, rng.choice([0, 1]))]))
+                plan.append(('straddle_tail', a))
+                tail = None
+                continue
+            if rng.random() < 0.08 and rq.op != 'fire':
+                ans_, _ = good_answer(rng, rq, kt, 'ack')
+                full_ = ans_[-1] if ans_ else b''
+                if len(full_) > 3:
+                    cut = rng.randrange(2, len(full_) - 1)
+                    # an answer frame that straddles two attempts: its first bytes now (then silence), the rest after the NEXT transmission
+                    this.append((True, Q.chunk(rng, full_[:cut], mode, DTS)))
+                    plan.append(('straddle_head', a))
+                    tail = full_[cut:]
+                    continue
             if fault == 'txfail':
                 this.append((False, []))
             else:
